@@ -30,3 +30,24 @@ Theorem C14_create_refuses_iff :
   create_part s v t = Err ValueError <-> valid_short s = false \/ valid_version v = false \/ valid_type t = false.
 Proof. exact create_part_refuses_iff. Qed.
 Print Assumptions C14_create_refuses_iff.
+
+(* The three predicates accept exactly the documented languages (up to Python's '$' also matching before a final newline):
+   short names and types: a lowercase letter followed by lowercase alphanumerics in non-empty dash-separated segments;
+   versions: dot-separated decimal integers, or any non-empty one-line string not starting with a digit.
+   The predicates are the patterns regenerated from the source, run by the matcher proved sound and complete. *)
+From PM Require Import Proofs.LangProofs.
+
+Theorem C14_short_lang :
+  forall s, valid_short s = true <-> exists body, (s = body \/ s = body ++ [c_nl]) /\ DocShort body.
+Proof. exact valid_short_lang. Qed.
+Print Assumptions C14_short_lang.
+
+Theorem C14_type_lang :
+  forall s, valid_type s = true <-> exists body, (s = body \/ s = body ++ [c_nl]) /\ DocShort body.
+Proof. exact valid_type_lang. Qed.
+Print Assumptions C14_type_lang.
+
+Theorem C14_version_lang :
+  forall s, valid_version s = true <-> exists body, (s = body \/ s = body ++ [c_nl]) /\ DocVersion body.
+Proof. exact valid_version_lang. Qed.
+Print Assumptions C14_version_lang.
